@@ -318,8 +318,10 @@ class Bicomplex(object):
         return Bicomplex(0.5 * np.log1p(z1 * (2 + z1) + z2 * z2), self.arg_c1p())
 
     def expm1(self):
-        expz1 = np.expm1(self.z1)
-        return Bicomplex(expz1 * np.cos(self.z2), expz1 * np.sin(self.z2))
+        expm1z1 = np.expm1(self.z1)
+        # exp(z1) * cos(z2) - 1 = expm1(z1) * cos(z2) - 2 * sin(z2 / 2)**2
+        return Bicomplex(expm1z1 * np.cos(self.z2) - 2 * np.sin(0.5 * self.z2) ** 2,
+                         (expm1z1 + 1) * np.sin(self.z2))
 
     def exp(self):
         expz1 = np.exp(self.z1)
